@@ -70,6 +70,17 @@ func (a *apiServer) CreateStream(ctx context.Context, req *client.CreateStreamRe
 		a.logger.Errorf("api: Failed to create stream: stream is reserved")
 		return nil, status.Error(codes.InvalidArgument, "Stream is reserved")
 	}
+	if req.Partitions < 0 {
+		a.logger.Errorf("api: Failed to create stream: partitions is invalid")
+		return nil, status.Error(codes.InvalidArgument, "Partitions is invalid")
+	}
+
+	// Authorize the call before anything is built from the request.
+	e := a.ensureAuthorizationPermission(ctx, req.Name, "CreateStream")
+	if e != nil {
+		a.logger.Errorf("api: Failed to authorize call on resource: %v", e)
+		return nil, e
+	}
 
 	partitions := make([]*proto.Partition, req.Partitions)
 	for i := int32(0); i < req.Partitions; i++ {
@@ -87,12 +98,6 @@ func (a *apiServer) CreateStream(ctx context.Context, req *client.CreateStreamRe
 		Subject:    req.Subject,
 		Partitions: partitions,
 		Config:     getStreamConfig(req),
-	}
-
-	e := a.ensureAuthorizationPermission(ctx, req.Name, "CreateStream")
-	if e != nil {
-		a.logger.Errorf("api: Failed to authorize call on resource: %v", e)
-		return nil, e
 	}
 
 	err := a.ensureCreateStreamPrecondition(req)
